@@ -7,9 +7,48 @@ import YV.Spec.XCompile
 namespace YV.XP
 open YV YV.X YV.XL YV.XC
 
-/-- an expression as written: numbers, literals, unary minus, the thirteen binary operators, parentheses, and
-    function calls with up to three argument expressions -/
+/-- the steps of a location path (no predicates): a name test, `..`, `.` -/
+inductive PStep | name (p l : List Rune) | up | dot
+  deriving Repr, DecidableEq
+
+/-- how a location path begins: `/`, a first step, `current()` -/
+inductive PRoot | abs | rel (first : PStep) | cur
+  deriving Repr, DecidableEq
+
+def PStep.tok : PStep → Tok
+  | .name p l => .nametest p l
+  | .up => .dotdot
+  | .dot => .ch (chr '.')
+
+def PStep.code : PStep → List PI
+  | .name p l => [.namePush p l]
+  | .up => [.pathDotDot]
+  | .dot => []
+
+/-- steps, each after a `/` -/
+def sepToks : List PStep → List Tok
+  | [] => []
+  | s :: r => .ch (chr '/') :: s.tok :: sepToks r
+
+def stepsCode : List PStep → List PI
+  | [] => []
+  | s :: r => s.code ++ stepsCode r
+
+def pathToks : PRoot → List PStep → List Tok
+  | .abs, [] => [.ch (chr '/')]
+  | .abs, s :: r => sepToks (s :: r)
+  | .rel f, steps => f.tok :: sepToks steps
+  | .cur, steps => .currentfunc :: .ch (chr '(') :: .ch (chr ')') :: sepToks steps
+
+def pathCode : PRoot → List PStep → List PI
+  | .abs, steps => .pathRoot :: (stepsCode steps ++ [.evalLocPath])
+  | .rel f, steps => f.code ++ stepsCode steps ++ [.evalLocPath]
+  | .cur, steps => .pathSetCurrent :: (stepsCode steps ++ [.evalLocPath])
+
+/-- an expression as written: numbers, literals, location paths without predicates, unary minus, the thirteen
+    binary operators, parentheses, and function calls with up to three argument expressions -/
 inductive PE where
+  | path (root : PRoot) (steps : List PStep)
   | num (x : SF)
   | lit (s : List Rune)
   | paren (e : PE)
@@ -30,6 +69,7 @@ def level : BinOp → Nat
   | .add => 4 | .sub => 4 | .mul => 5 | .div => 5 | .mod => 5
 
 def PE.toks : PE → List Tok
+  | .path root steps => pathToks root steps
   | .num x => [.num x]
   | .lit s => [.lit s]
   | .paren e => .ch (chr '(') :: (e.toks ++ [.ch (chr ')')])
@@ -43,6 +83,7 @@ def PE.toks : PE → List Tok
 
 /-- the tree's postfix code: parentheses leave no trace -/
 def PE.code : PE → List PI
+  | .path root steps => pathCode root steps
   | .num x => [.num x]
   | .lit s => [.lit s]
   | .paren e => e.code
@@ -57,6 +98,7 @@ def PE.code : PE → List PI
     expected without further parentheses: a left operand may be of the operator's own level
     (left-associativity), a right operand must bind tighter, the operand of unary minus is unary -/
 def PE.fits : Nat → PE → Prop
+  | _, .path _ _ => True
   | _, .num _ => True
   | _, .lit _ => True
   | _, .paren e => e.fits 0
@@ -72,7 +114,8 @@ def advN (n : Nat) (s : PSt) : PSt := { s with toks := s.toks.drop n, pos := s.p
 def done (e : PE) (s : PSt) : PSt := { advN e.toks.length s with out := e.code.reverse ++ s.out }
 
 def stopAt (lvl : Nat) (t : Tok) : Prop :=
-  (∀ j, lvl ≤ j → binOpAt j t = none) ∧ t ≠ .ch (chr '|') ∧ t ≠ .ch (chr '[') ∧ t ≠ .ch (chr '/') ∧ t ≠ .dblslash
+  (∀ j, lvl ≤ j → binOpAt j t = none) ∧ t ≠ .ch (chr '|') ∧ t ≠ .ch (chr '[') ∧ t ≠ .ch (chr '/') ∧ t ≠ .dblslash ∧
+    startsStep t = false
 
 theorem peek_tk (s : PSt) : peekTok s = (tk s).headD .eof := by
   unfold peekTok tk; cases s.toks <;> rfl
@@ -134,17 +177,26 @@ theorem binOpAt_other (op : BinOp) (j : Nat) (h : j ≠ level op) : binOpAt j (o
   rcases j with _ | _ | _ | _ | _ | _ | j <;> cases op <;> simp [binOpAt, opTok, level, chr] at h ⊢
 
 theorem stopAt_opTok (op : BinOp) : stopAt (level op + 1) (opTok op) := by
-  refine ⟨fun j hj => binOpAt_other op j (by omega), ?_, ?_, ?_, ?_⟩ <;> cases op <;> simp [opTok, chr]
+  refine ⟨fun j hj => binOpAt_other op j (by omega), ?_, ?_, ?_, ?_, ?_⟩ <;> cases op <;> simp [opTok, chr, startsStep]
 
 theorem stopAt_mono (a b : Nat) (t : Tok) (h : a ≤ b) (hs : stopAt a t) : stopAt b t :=
   ⟨fun j hj => hs.1 j (by omega), hs.2⟩
 
 /-- the first token of an expression: a number, a literal, '(', '-' or a function name -/
 def startTok (t : Tok) : Prop :=
-  (∃ x, t = .num x) ∨ (∃ l, t = .lit l) ∨ t = .ch (chr '(') ∨ t = .ch (chr '-') ∨ (∃ fn, t = .func fn)
+  (∃ x, t = .num x) ∨ (∃ l, t = .lit l) ∨ t = .ch (chr '(') ∨ t = .ch (chr '-') ∨ (∃ fn, t = .func fn) ∨
+    t = .ch (chr '/') ∨ t = .currentfunc ∨ (∃ st : PStep, t = st.tok)
 
 theorem toks_start (e : PE) : ∃ t r, e.toks = t :: r ∧ startTok t := by
   induction e with
+  | path root steps =>
+    cases root with
+    | abs =>
+      cases steps with
+      | nil => exact ⟨_, _, rfl, .inr (.inr (.inr (.inr (.inr (.inl rfl)))))⟩
+      | cons st r => exact ⟨_, _, rfl, .inr (.inr (.inr (.inr (.inr (.inl rfl)))))⟩
+    | rel f => exact ⟨_, _, rfl, .inr (.inr (.inr (.inr (.inr (.inr (.inr ⟨f, rfl⟩))))))⟩
+    | cur => exact ⟨_, _, rfl, .inr (.inr (.inr (.inr (.inr (.inr (.inl rfl))))))⟩
   | num x => exact ⟨_, _, rfl, .inl ⟨x, rfl⟩⟩
   | lit l => exact ⟨_, _, rfl, .inr (.inl ⟨l, rfl⟩)⟩
   | paren e _ => exact ⟨_, _, rfl, .inr (.inr (.inl rfl))⟩
@@ -152,10 +204,10 @@ theorem toks_start (e : PE) : ∃ t r, e.toks = t :: r ∧ startTok t := by
   | bin op a b iha _ =>
     obtain ⟨t, r, h, ht⟩ := iha
     exact ⟨t, r ++ opTok op :: b.toks, by simp [PE.toks, h], ht⟩
-  | call0 fn => exact ⟨_, _, rfl, .inr (.inr (.inr (.inr ⟨fn, rfl⟩)))⟩
-  | call1 fn a _ => exact ⟨_, _, rfl, .inr (.inr (.inr (.inr ⟨fn, rfl⟩)))⟩
-  | call2 fn a b _ _ => exact ⟨_, _, rfl, .inr (.inr (.inr (.inr ⟨fn, rfl⟩)))⟩
-  | call3 fn a b c _ _ _ => exact ⟨_, _, rfl, .inr (.inr (.inr (.inr ⟨fn, rfl⟩)))⟩
+  | call0 fn => exact ⟨_, _, rfl, .inr (.inr (.inr (.inr (.inl ⟨fn, rfl⟩))))⟩
+  | call1 fn a _ => exact ⟨_, _, rfl, .inr (.inr (.inr (.inr (.inl ⟨fn, rfl⟩))))⟩
+  | call2 fn a b _ _ => exact ⟨_, _, rfl, .inr (.inr (.inr (.inr (.inl ⟨fn, rfl⟩))))⟩
+  | call3 fn a b c _ _ _ => exact ⟨_, _, rfl, .inr (.inr (.inr (.inr (.inl ⟨fn, rfl⟩))))⟩
 
 /-! ### the three statements proved together -/
 
@@ -305,7 +357,7 @@ theorem unary_of_primary (g : Nat) (s s1 : PSt) (hneg : peekTok s ≠ .ch (chr '
   cases g with
   | zero => simp [pPrimary] at hprim
   | succ g =>
-    rw [pPreds_stop g s1 hs.2.2.1, ok_bind, filterTail_stop s1 hs.2.2.2.1 hs.2.2.2.2, ok_bind]
+    rw [pPreds_stop g s1 hs.2.2.1, ok_bind, filterTail_stop s1 hs.2.2.2.1 hs.2.2.2.2.1, ok_bind]
     exact pUnionRest_stop _ _ hs.2.1
 
 theorem U_num (x : SF) : U (.num x) := by
@@ -338,7 +390,7 @@ theorem U_neg (e : PE) (he : U e) : U (.neg e) := by
     rfl
 
 theorem stopAt_rparen (lvl : Nat) : stopAt lvl (.ch (chr ')')) := by
-  refine ⟨fun j _ => ?_, by simp [chr], by simp [chr], by simp [chr], by simp⟩
+  refine ⟨fun j _ => ?_, by simp [chr], by simp [chr], by simp [chr], by simp, by simp [startsStep, chr]⟩
   rcases j with _ | _ | _ | _ | _ | _ | j <;> simp [binOpAt, chr]
 
 theorem pPrimary_paren (f : Nat) (s : PSt) (h : peekTok s = .ch (chr '(')) (h2 : peekTok (adv s) ≠ .ch (chr ')')) :
@@ -354,7 +406,8 @@ theorem U_paren (e : PE) (he : T e 0) : U (.paren e) := by
     obtain ⟨t, r, hr, hst'⟩ := toks_start e
     rw [peek_tk, htk, hr]
     simp only [List.cons_append, List.headD_cons]
-    rcases hst' with ⟨x, rfl⟩ | ⟨l, rfl⟩ | rfl | rfl | ⟨fn, rfl⟩ <;> simp [chr]
+    rcases hst' with ⟨x, rfl⟩ | ⟨l, rfl⟩ | rfl | rfl | ⟨fn, rfl⟩ | rfl | rfl | ⟨st, rfl⟩ <;> try simp [chr]
+    cases st <;> simp [PStep.tok, chr]
   have hin := he g' (adv s) (.ch (chr ')') :: rest) (by simp [B, PE.toks] at hg ⊢; omega) htk
     (stopAt_rparen 0) hst
   have hprim : pPrimary (g' + 1) s = .ok (done (.paren e) s) := by
@@ -369,7 +422,7 @@ theorem U_paren (e : PE) (he : T e 0) : U (.paren e) := by
 /-! ### function calls -/
 
 theorem stopAt_comma (lvl : Nat) : stopAt lvl (.ch (chr ',')) := by
-  refine ⟨fun j _ => ?_, by simp [chr], by simp [chr], by simp [chr], by simp⟩
+  refine ⟨fun j _ => ?_, by simp [chr], by simp [chr], by simp [chr], by simp, by simp [startsStep, chr]⟩
   rcases j with _ | _ | _ | _ | _ | _ | j <;> simp [binOpAt, chr]
 
 theorem pPath_func (f : Nat) (s : PSt) (fn : Fn) (h : peekTok s = .func fn) : pPath (f + 1) s = pFilterPath f s := by
@@ -382,7 +435,8 @@ theorem first_not_rparen (e : PE) (rest : List Tok) : (e.toks ++ rest).headD .eo
   obtain ⟨t, r, hr, hst'⟩ := toks_start e
   rw [hr]
   simp only [List.cons_append, List.headD_cons]
-  rcases hst' with ⟨x, rfl⟩ | ⟨l, rfl⟩ | rfl | rfl | ⟨fn, rfl⟩ <;> simp [chr]
+  rcases hst' with ⟨x, rfl⟩ | ⟨l, rfl⟩ | rfl | rfl | ⟨fn, rfl⟩ | rfl | rfl | ⟨st, rfl⟩ <;> try simp [chr]
+  cases st <;> simp [PStep.tok, chr]
 
 /-- one argument expression, followed by the token `t` (a comma or the closing parenthesis) -/
 theorem arg_step (a : PE) (ha : T a 0) (f : Nat) (s : PSt) (t : Tok) (rest : List Tok) (hf : B a + 12 ≤ f)
@@ -489,6 +543,199 @@ theorem U_call3 (fn : Fn) (a b c : PE) (har : fn.sig.1.length = 3) (ha : T a 0) 
   have hd := peek_done (.call3 fn a b c) s rest ht
   exact unary_of_primary (g' + 1) s _ (by rw [hp]; simp) (pPath_func _ _ fn hp) hprim (by rw [hd]; exact hs)
 
+/-! ### location paths -/
+
+/-- the state after `n` tokens that produced `code` -/
+def doneG (n : Nat) (code : List PI) (s : PSt) : PSt := { advN n s with out := code.reverse ++ s.out }
+
+theorem tk_doneG (n : Nat) (code : List PI) (s : PSt) : tk (doneG n code s) = (tk s).drop n := by
+  simp [tk, doneG, advN, List.map_drop]
+
+theorem relTail_stop (s : PSt) (h1 : peekTok s ≠ .ch (chr '/')) (h2 : peekTok s ≠ .dblslash) (f : Nat) :
+    (match peekTok s with
+      | .ch c => if c = chr '/' then pRelPath f (adv s) else pure s
+      | .dblslash => pRelPath f (setErr (adv s) "// unsupported")
+      | _ => pure s : P PSt) = .ok s := by
+  split
+  · rename_i c hc
+    have : c ≠ chr '/' := fun e => h1 (by rw [hc, e])
+    simp only [this, ↓reduceIte]; rfl
+  · rename_i hc; exact absurd hc h2
+  · rfl
+
+theorem pStep_ok (f : Nat) (s : PSt) (st : PStep) (h : peekTok s = st.tok) (h2 : peekTok (adv s) ≠ .ch (chr '[')) :
+    pStep (f + 1) s = .ok (doneG 1 st.code s) := by
+  cases st with
+  | name p l =>
+    simp only [PStep.tok] at h
+    have h2' : peekTok (emit (adv s) (.namePush p l)) ≠ .ch (chr '[') := h2
+    simp only [pStep, h, h2', ↓reduceIte]
+    rfl
+  | up =>
+    simp only [PStep.tok] at h
+    simp only [pStep, h]
+    rfl
+  | dot =>
+    simp only [PStep.tok] at h
+    simp only [pStep, h, ↓reduceIte]
+    apply congrArg
+    apply PSt.ext' <;> simp [doneG, advN, adv, PStep.code]
+
+theorem pRelPath_succ (f : Nat) (s : PSt) :
+    pRelPath (f + 1) s = (pStep f s >>= fun s =>
+      (match peekTok s with
+        | .ch c => if c = chr '/' then pRelPath f (adv s) else pure s
+        | .dblslash => pRelPath f (setErr (adv s) "// unsupported")
+        | _ => pure s : P PSt)) := by
+  simp only [pRelPath]
+  rfl
+
+/-- a step, then further steps each after a `/`, up to a token that is none of `/`, `//`, `[` -/
+theorem relPath_ok : ∀ (r : List PStep) (st : PStep) (f : Nat) (s : PSt) (rest : List Tok), 2 * r.length + 2 ≤ f →
+    tk s = st.tok :: (sepToks r ++ rest) → rest.headD .eof ≠ .ch (chr '/') → rest.headD .eof ≠ .dblslash →
+    rest.headD .eof ≠ .ch (chr '[') →
+    pRelPath f s = .ok (doneG (1 + (sepToks r).length) (st.code ++ stepsCode r) s) := by
+  intro r
+  induction r with
+  | nil =>
+    intro st f s rest hf ht h1 h2 h3
+    obtain ⟨f', rfl⟩ : ∃ f', f = f' + 1 + 1 := ⟨f - 2, by simp at hf; omega⟩
+    have hp : peekTok s = st.tok := by rw [peek_tk, ht]; rfl
+    have hn : peekTok (adv s) = rest.headD .eof := by rw [peek_tk, tk_adv, ht]; simp [sepToks]
+    rw [pRelPath_succ, pStep_ok f' s st hp (by rw [hn]; exact h3), ok_bind]
+    have hd : peekTok (doneG 1 st.code s) = rest.headD .eof := by rw [peek_tk, tk_doneG, ht]; simp [sepToks]
+    rw [relTail_stop _ (by rw [hd]; exact h1) (by rw [hd]; exact h2)]
+    simp [sepToks, stepsCode]
+  | cons st2 r ih =>
+    intro st f s rest hf ht h1 h2 h3
+    obtain ⟨f', rfl⟩ : ∃ f', f = f' + 1 + 1 := ⟨f - 2, by simp at hf; omega⟩
+    have hp : peekTok s = st.tok := by rw [peek_tk, ht]; rfl
+    have hn : peekTok (adv s) = .ch (chr '/') := by rw [peek_tk, tk_adv, ht]; simp [sepToks]
+    rw [pRelPath_succ, pStep_ok f' s st hp (by rw [hn]; simp [chr]), ok_bind]
+    have hd : peekTok (doneG 1 st.code s) = .ch (chr '/') := by rw [peek_tk, tk_doneG, ht]; simp [sepToks]
+    rw [hd]
+    simp only [↓reduceIte]
+    rw [ih st2 (f' + 1) (adv (doneG 1 st.code s)) rest (by simp at hf ⊢; omega)
+      (by rw [tk_adv, tk_doneG, ht]; simp [sepToks]) h1 h2 h3]
+    apply congrArg
+    apply PSt.ext' <;>
+      simp [doneG, advN, adv, sepToks, stepsCode, List.drop_drop, Nat.add_comm, Nat.add_assoc, Nat.add_left_comm] <;> omega
+
+theorem step_starts (st : PStep) : startsStep st.tok = true := by
+  cases st <;> simp [PStep.tok, startsStep, chr]
+
+theorem pPath_step (f : Nat) (s : PSt) (st : PStep) (h : peekTok s = st.tok) :
+    pPath (f + 1) s = (pRelPath f s >>= fun s => pure (emit s .evalLocPath)) := by
+  cases st with
+  | name p l => simp only [PStep.tok] at h; simp only [pPath, h]
+  | up => simp only [PStep.tok] at h; simp only [pPath, h]
+  | dot =>
+    simp only [PStep.tok] at h
+    simp only [pPath, h]
+    simp [chr]
+
+theorem sepToks_length (r : List PStep) : (sepToks r).length = 2 * r.length := by
+  induction r with
+  | nil => rfl
+  | cons a r ih => simp [sepToks, ih]; omega
+
+theorem U_path (root : PRoot) (steps : List PStep) : U (.path root steps) := by
+  intro g s rest hg ht hs hst
+  have hr1 := hs.2.2.2.1
+  have hr2 := hs.2.2.2.2.1
+  have hr3 := hs.2.2.1
+  have hlen : ∀ r : List PStep, (sepToks r).length = 2 * r.length := sepToks_length
+  cases root with
+  | abs =>
+    have hp : peekTok s = .ch (chr '/') := by
+      rw [peek_tk, ht]; cases steps <;> rfl
+    obtain ⟨g', rfl⟩ : ∃ g', g = g' + 1 + 1 := ⟨g - 2, by simp [B] at hg; omega⟩
+    rw [pUnary_pos _ _ (by rw [hp]; simp [chr])]
+    cases steps with
+    | nil =>
+      have hn : peekTok (emit (adv s) .pathRoot) = rest.headD .eof := by
+        show peekTok (adv s) = _
+        rw [peek_tk, tk_adv, ht]; simp [PE.toks, pathToks]
+      have : pPath (g' + 1) s = .ok (done (.path .abs []) s) := by
+        simp only [pPath, hp]
+        simp only [show chr '/' ≠ chr '(' by simp [chr], ↓reduceIte, hn, hs.2.2.2.2.2, Bool.false_eq_true]
+        change Except.ok _ = Except.ok _
+        change Except.ok _ = Except.ok _
+        apply congrArg
+        apply PSt.ext' <;> simp [done, advN, adv, emit, PE.toks, PE.code, pathToks, pathCode, stepsCode]
+      rw [this, ok_bind]
+      exact pUnionRest_stop _ _ (by rw [peek_done _ s rest ht]; exact hs.2.1)
+    | cons st r =>
+      have hn : peekTok (emit (adv s) .pathRoot) = st.tok := by
+        show peekTok (adv s) = _
+        rw [peek_tk, tk_adv, ht]; simp [PE.toks, pathToks, sepToks]
+      have hrel := relPath_ok r st g' (emit (adv s) .pathRoot) rest
+        (by simp [B, PE.toks, pathToks, sepToks, hlen] at hg ⊢; omega)
+        (by show tk (adv s) = _; rw [tk_adv, ht]; simp [PE.toks, pathToks, sepToks]) hr1 hr2 hr3
+      have : pPath (g' + 1) s = .ok (done (.path .abs (st :: r)) s) := by
+        simp only [pPath, hp]
+        simp only [show chr '/' ≠ chr '(' by simp [chr], ↓reduceIte, hn, step_starts, hrel]
+        change Except.ok _ = Except.ok _
+        apply congrArg
+        apply PSt.ext' <;>
+          simp [done, doneG, advN, adv, emit, PE.toks, PE.code, pathToks, pathCode, stepsCode, sepToks, List.drop_drop,
+            Nat.add_comm, Nat.add_assoc, Nat.add_left_comm] <;> omega
+      rw [this, ok_bind]
+      exact pUnionRest_stop _ _ (by rw [peek_done _ s rest ht]; exact hs.2.1)
+  | rel f =>
+    have hp : peekTok s = f.tok := by rw [peek_tk, ht]; rfl
+    obtain ⟨g', rfl⟩ : ∃ g', g = g' + 1 + 1 := ⟨g - 2, by simp [B] at hg; omega⟩
+    rw [pUnary_pos _ _ (by rw [hp]; cases f <;> simp [PStep.tok, chr])]
+    have hrel := relPath_ok steps f g' s rest
+      (by simp [B, PE.toks, pathToks, hlen] at hg ⊢; omega) (by rw [ht]; simp [PE.toks, pathToks]) hr1 hr2 hr3
+    have : pPath (g' + 1) s = .ok (done (.path (.rel f) steps) s) := by
+      rw [pPath_step g' s f hp, hrel, ok_bind]
+      apply congrArg
+      apply PSt.ext' <;>
+        simp [done, doneG, advN, adv, emit, PE.toks, PE.code, pathToks, pathCode, Nat.add_comm]
+    rw [this, ok_bind]
+    exact pUnionRest_stop _ _ (by rw [peek_done _ s rest ht]; exact hs.2.1)
+  | cur =>
+    have hp : peekTok s = .currentfunc := by rw [peek_tk, ht]; rfl
+    obtain ⟨g', rfl⟩ : ∃ g', g = g' + 1 + 1 := ⟨g - 2, by simp [B] at hg; omega⟩
+    rw [pUnary_pos _ _ (by rw [hp]; simp)]
+    have h1 : peekTok (adv s) = .ch (chr '(') := by rw [peek_tk, tk_adv, ht]; simp [PE.toks, pathToks]
+    have h2 : peekTok (adv (adv s)) = .ch (chr ')') := by rw [peek_tk, tk_adv, tk_adv, ht]; simp [PE.toks, pathToks]
+    cases steps with
+    | nil =>
+      have hn : peekTok (emit (adv (adv (adv s))) .pathSetCurrent) = rest.headD .eof := by
+        show peekTok (adv (adv (adv s))) = _
+        rw [peek_tk, tk_adv, tk_adv, tk_adv, ht]; simp [PE.toks, pathToks, sepToks]
+      have : pPath (g' + 1) s = .ok (done (.path .cur []) s) := by
+        simp only [pPath, hp]
+        rw [expectCh_ok '(' _ h1, ok_bind, expectCh_ok ')' _ h2, ok_bind]
+        simp only [hn, hr1, ↓reduceIte]
+        change Except.ok _ = Except.ok _
+        change Except.ok _ = Except.ok _
+        apply congrArg
+        apply PSt.ext' <;> simp [done, advN, adv, emit, PE.toks, PE.code, pathToks, pathCode, stepsCode, sepToks, Nat.add_assoc]
+      rw [this, ok_bind]
+      exact pUnionRest_stop _ _ (by rw [peek_done _ s rest ht]; exact hs.2.1)
+    | cons st r =>
+      have hn : peekTok (emit (adv (adv (adv s))) .pathSetCurrent) = .ch (chr '/') := by
+        show peekTok (adv (adv (adv s))) = _
+        rw [peek_tk, tk_adv, tk_adv, tk_adv, ht]; simp [PE.toks, pathToks, sepToks]
+      have hrel := relPath_ok r st g' (adv (emit (adv (adv (adv s))) .pathSetCurrent)) rest
+        (by simp [B, PE.toks, pathToks, sepToks, hlen] at hg ⊢; omega)
+        (by show tk (adv (adv (adv (adv s)))) = _
+            rw [tk_adv, tk_adv, tk_adv, tk_adv, ht]; simp [PE.toks, pathToks, sepToks]) hr1 hr2 hr3
+      have : pPath (g' + 1) s = .ok (done (.path .cur (st :: r)) s) := by
+        simp only [pPath, hp]
+        rw [expectCh_ok '(' _ h1, ok_bind, expectCh_ok ')' _ h2, ok_bind]
+        simp only [hn, ↓reduceIte, hrel]
+        change Except.ok _ = Except.ok _
+        apply congrArg
+        apply PSt.ext' <;>
+          simp [done, doneG, advN, adv, emit, PE.toks, PE.code, pathToks, pathCode, stepsCode, sepToks, List.drop_drop,
+            Nat.add_comm, Nat.add_assoc, Nat.add_left_comm] <;> omega
+      rw [this, ok_bind]
+      exact pUnionRest_stop _ _ (by rw [peek_done _ s rest ht]; exact hs.2.1)
+
 theorem pLevelRest_op (g k : Nat) (s : PSt) (i : PI) (h : binOpAt k (peekTok s) = some i) :
     pLevelRest (g + 1) k s = (pLevel g (k + 1) (adv s) >>= fun s2 => pLevelRest g k (emit s2 i)) := by
   simp only [pLevelRest, h]
@@ -516,6 +763,10 @@ theorem C_bin (op : BinOp) (a b : PE) (ha : C a (level op)) (hb : T b (level op 
 theorem prec_main (e : PE) :
     (∀ lvl, lvl ≤ 6 → e.fits lvl → T e lvl) ∧ (∀ k, k ≤ 5 → e.fits k → C e k) ∧ (e.fits 6 → U e) := by
   induction e with
+  | path root steps =>
+    have hl := ladder (.path root steps) 6 (Nat.le_refl _) (T6_of_U _ (U_path root steps))
+    exact ⟨fun lvl h _ => (hl (6 - lvl) lvl (by omega)).1, fun k h _ => (hl (6 - k) k (by omega)).2 (by omega),
+      fun _ => U_path root steps⟩
   | num x =>
     have hl := ladder (.num x) 6 (Nat.le_refl _) (T6_of_U _ (U_num x))
     exact ⟨fun lvl h _ => (hl (6 - lvl) lvl (by omega)).1, fun k h _ => (hl (6 - k) k (by omega)).2 (by omega), fun _ => U_num x⟩
@@ -573,11 +824,13 @@ theorem prec_main (e : PE) :
 
 /-- the tree behind the written expression: parentheses removed -/
 inductive ET where
+  | path (root : PRoot) (steps : List PStep)
   | num (x : SF) | lit (s : List Rune) | neg (e : ET) | bin (op : BinOp) (a b : ET)
   | call0 (fn : Fn) | call1 (fn : Fn) (a : ET) | call2 (fn : Fn) (a b : ET) | call3 (fn : Fn) (a b c : ET)
   deriving Repr, DecidableEq
 
 def PE.tree : PE → ET
+  | .path root steps => .path root steps
   | .num x => .num x
   | .lit s => .lit s
   | .paren e => e.tree
@@ -589,6 +842,7 @@ def PE.tree : PE → ET
   | .call3 fn a b c => .call3 fn a.tree b.tree c.tree
 
 def ET.code : ET → List PI
+  | .path root steps => pathCode root steps
   | .num x => [.num x]
   | .lit s => [.lit s]
   | .neg e => e.code ++ [.negate]
@@ -600,6 +854,7 @@ def ET.code : ET → List PI
 
 theorem code_tree (e : PE) : e.code = e.tree.code := by
   induction e with
+  | path root steps => rfl
   | num x => rfl
   | lit s => rfl
   | paren e ih => simpa [PE.code, PE.tree] using ih
@@ -620,7 +875,7 @@ theorem parseExprToks_spec (e : PE) (hf : e.fits 0) (toks : List LexedTok)
     have := congrArg List.length ht; simpa using this
   have h := hT (24 * toks.length + 24) { toks := toks, strict := false } [.eof]
     (by simp only [B]; omega) ht
-    ⟨fun j _ => by rcases j with _ | _ | _ | _ | _ | _ | j <;> simp [binOpAt], by simp, by simp, by simp, by simp⟩ rfl
+    ⟨fun j _ => by rcases j with _ | _ | _ | _ | _ | _ | j <;> simp [binOpAt], by simp, by simp, by simp, by simp, rfl⟩ rfl
   refine ⟨emit (done e { toks := toks, strict := false }) .store, ?_, ?_, rfl⟩
   · unfold parseExprToks
     rw [h, ok_bind]
